@@ -190,7 +190,8 @@ def gen_program(rng, thorough):
     imports = [("base", rng.chance(4, 5))] if has_base else []
     if has_base and rng.chance(1, 2):
         # a second import (listed before or after the first): ${imports.X} denotes X's OWN value, whatever else is merged
-        b2 = [(k, G.gen_literal(rng, 2, ["a", "b", "c"], STRS)) for k in rng.shuffle(ks)[: 1 + rng.below(len(ks))]]
+        # keys disjoint from every other key of the program, so that the claims computed above stay valid
+        b2 = [(k, G.gen_literal(rng, 2, ["a", "b", "c"], STRS)) for k in rng.shuffle(["z2a", "z2b", "z2c"])[: 1 + rng.below(3)]]
         envs["base2"] = {"imports": [], "values": b2}
         imports = rng.shuffle(imports + [("base2", rng.chance(4, 5))])
         for nm, vals in (("base", base_vals), ("base2", b2)):
@@ -334,7 +335,13 @@ def shrink(c):
     d = c["def"]
     for i in range(len(d["values"])):
         vals = d["values"][:i] + d["values"][i + 1:]
-        yield dict(c, **{"def": {"imports": d["imports"], "values": vals}, "def2": {"imports": d["imports"], "values": list(reversed(vals))}})
+        gone = G.sx(d["values"][i][0])
+        # claims that mention the removed key would fail trivially: drop them with it
+        claims = [cl for cl in c["claims"] if (gone + " ") not in cl and (gone + ")") not in cl]
+        if not claims:
+            continue
+        yield dict(c, claims=claims, **{"def": {"imports": d["imports"], "values": vals},
+                                        "def2": {"imports": d["imports"], "values": list(reversed(vals))}})
 
 
 def distribution(cases, r):
